@@ -51,6 +51,7 @@ theorem mul_core (c : Ctx) (hc : c.WF) (neg : Bool) (N : Nat) (xe ye : Int)
     subst hN
     obtain ⟨z1, z2, z3, z4, _⟩ := setExponent_zero c d0 {} [xe, ye] hd0f hd0c benign_empty hns1
     generalize setExponent c d0 {} [xe, ye] = r1 at *
+    rw [roundX_finite c r1.1 true z1] at hns2 ⊢
     rw [roundX_zero_eq c r1.1 hc1 z1 z2] at hns2 ⊢
     obtain ⟨w1, w2, w3, w4, w5⟩ := setExponent_zero c r1.1 {} [r1.1.exp, 0] z1 z2 benign_empty hns2
     exact agrees_zero c neg _ _ _ w1 w2 (by rw [w3, z3, hd0n]) (benign_or z4 w4) hc1 (w5 hc1 (by omega))
@@ -91,6 +92,7 @@ theorem mul_core (c : Ctx) (hc : c.WF) (neg : Bool) (N : Nat) (xe ye : Int)
         obtain ⟨fl1, e1, g1, g2, g3, g4, g5, g6, g7, g8, g9⟩ := e1
         rw [e1] at hns2 ⊢
         simp only at hns2 ⊢
+        rw [roundX_finite c _ true rfl] at hns2 ⊢
         obtain ⟨hmin, _⟩ := roundX_noSys_exp c _ (by omega) hns2
         simp only at hmin
         have hdig := sub_rnd_digits c hc neg N (xe + ye) hNpos hsub hr
@@ -112,6 +114,7 @@ theorem mul_core (c : Ctx) (hc : c.WF) (neg : Bool) (N : Nat) (xe ye : Int)
           simp [hz, seFinish_eq, empty_or, Cond.cSubnormal]
         rw [e1] at hns2 ⊢
         simp only at hns2 ⊢
+        rw [roundX_finite c _ true rfl] at hns2 ⊢
         obtain ⟨hmin, _⟩ := roundX_noSys_exp c _ (by omega) hns2
         simp only at hmin
         have hp := ndigits_pos N
@@ -135,20 +138,16 @@ theorem mul_core (c : Ctx) (hc : c.WF) (neg : Bool) (N : Nat) (xe ye : Int)
               ({} : Cond) ||| Cond.cOverflow ||| Cond.cInexact) := by
           rw [setExponent_over c _ {} _ k1 k2' k3' (by rw [kadj]; omega) (by rw [kadj]; omega), hz, hsum]
           simp [seFinish_eq, Cond.cOverflow, Cond.cInexact]
-        rw [e1] at hns2 ⊢
-        simp only at hns2 ⊢
-        have post := roundX_norm c hc _ hNpos
-          (show c.emin ≤ xe + ye + (ndigits N : Int) - 1 by omega) hns2
-        simp only at post
+        rw [e1]
+        simp only
+        rw [roundX_nonfinite c _ true (by simp)]
+        simp only
         unfold Agrees FlagsOK
-        rw [spec_over c hc neg N _ hNpos (by omega)] at post ⊢
-        obtain ⟨p1, p2, p3, p4, p5, p6, p7, p8, p9, p10, p11, p12, p13⟩ := post
-        have hf := p2 rfl
-        simp only [specInf] at p1 p4 p5 p6 p7
+        rw [spec_over c hc neg N _ hNpos (by omega)]
         refine ⟨?_, ?_, ?_⟩
-        · simp [SpecOut.matches, hf, specInf, p1]
-        · simp [specInf, SpecOut.underflow, Cond.cOverflow, Cond.cInexact, *]
-        · simp [fits, hf]
+        · simp [SpecOut.matches, specInf]
+        · simp [specInf, SpecOut.underflow, Cond.cOverflow, Cond.cInexact]
+        · simp [fits]
       · -- normal range: the first call only sets the exponent
         have e1 : setExponent c { form := .finite, neg := neg, exp := 0, coeff := N } {} [xe, ye] =
             ({ form := .finite, neg := neg, exp := xe + ye, coeff := N }, {}) := by
@@ -156,6 +155,7 @@ theorem mul_core (c : Ctx) (hc : c.WF) (neg : Bool) (N : Nat) (xe ye : Int)
           simp [seFinish_eq]
         rw [e1] at hns2 ⊢
         simp only at hns2 ⊢
+        rw [roundX_finite c _ true rfl] at hns2 ⊢
         have post := roundX_norm c hc _ hNpos
           (show c.emin ≤ xe + ye + (ndigits N : Int) - 1 by omega) hns2
         simp only at post
@@ -182,6 +182,7 @@ theorem mul_core0 (c : Ctx) (hc : c.WF0) (hp : c.prec = 0) (neg : Bool) (N : Nat
     have hd0c : d0.coeff = 0 := by rw [← hd0]
     obtain ⟨z1, z2, z3, z4, _⟩ := setExponent_zero c d0 {} [xe, ye] hd0f hd0c benign_empty hns1
     generalize setExponent c d0 {} [xe, ye] = r1 at *
+    rw [roundX_finite c r1.1 true z1] at hns2 ⊢
     rw [roundX_prec0 c r1.1 hp] at hns2 ⊢
     obtain ⟨w1, w2, w3, w4, _⟩ := setExponent_zero c r1.1 {} [r1.1.exp] z1 z2 benign_empty hns2
     obtain ⟨b1, b2, b3, b4, _⟩ := benign_or z4 w4
@@ -206,6 +207,7 @@ theorem mul_core0 (c : Ctx) (hc : c.WF0) (hp : c.prec = 0) (neg : Bool) (N : Nat
         simp [seFinish_eq]
       rw [e1] at hns2 ⊢
       simp only at hns2 ⊢
+      rw [roundX_finite c _ true rfl] at hns2 ⊢
       rw [roundX_prec0 c _ hp] at hns2 ⊢
       obtain ⟨j1, j2, j3⟩ := setExponent_noSys hns2
       have e2 : setExponent c { form := .finite, neg := neg, exp := xe + ye, coeff := N } {} [xe + ye] =
